@@ -52,6 +52,27 @@ def cases(ctx):
             prog += [["set", [["Q", 0], a]], ["set", [["Q", 1], b]], [rng.choice(["cnot", "cphase"]), [["Q", 0], ["Q", 1]]]]
         yield {"kind": "direct", "nq": nq, "prog": prog, "debug": False, "load": False, "loaded_two_qubit": False,
                "script": [rng.randrange(2) for _ in range(8)]}
+    for _ in range(ctx.n(40, 3000)):
+        # a subroutine whose first instruction is a loop head (branch target 0); counters come from an earlier subroutine
+        nq = rng.choice([2, 3])
+        seed = []
+        for v in range(nq):
+            seed += [["set", [["Q", 0], v]], ["qalloc", [["Q", 0]]], ["init", [["Q", 0]]], ["set", [["Q", 0], v]], [rng.choice(["h", "k"]), [["Q", 0]]]]
+        cnt = rng.choice([1, 2, 3])
+        seed += [["set", [["R", 0], 0]], ["set", [["C", 0], cnt]], ["set", [["C", 10], 1]]]
+        body = []
+        for _j in range(rng.choice([1, 2, 3])):
+            if rng.random() < 0.5 or nq < 2:
+                body += [["set", [["Q", 0], rng.randrange(nq)]], [rng.choice(["h", "z", "s", "x"]), [["Q", 0]]]]
+            else:
+                a, b2 = rng.sample(range(nq), 2)
+                body += [["set", [["Q", 0], a]], ["set", [["Q", 1], b2]], [rng.choice(["cnot", "cphase"]), [["Q", 0], ["Q", 1]]]]
+        prog = body + [["add", [["R", 0], ["R", 0], ["C", 10]]], ["blt", [["R", 0], ["C", 0], 0]]]
+        if rng.random() < 0.5:
+            prog = [["beq", [["R", 0], ["C", 0], len(prog) + 2]]] + [[m, (o[:-1] + [o[-1] + 1]) if m == "blt" else o] for m, o in prog] + [["jmp", [0]]]
+            prog[-2][1][2] = len(prog)   # blt falls out past the jmp
+        yield {"kind": "direct", "nq": nq, "seed_prog": seed, "prog": prog, "debug": rng.random() < 0.3, "load": False,
+               "loaded_two_qubit": False, "script": [rng.randrange(2) for _ in range(8)]}
     for _ in range(ctx.n(300, 30000)):
         g = HostGen(rng, max_depth=rng.choice([2, 3]), allow_regs=False)
         g.p_cond_regmeas = 0.0
@@ -225,6 +246,11 @@ def _direct(ctx, case):
     ctx.count("branches_checked", stats["branches"])
     V = Side("v", case["script"], case["nq"])
     N = Side("n", case["script"], case["nq"])
+    if case.get("seed_prog"):
+        # an earlier (untranspiled, gate-free apart from preparation) subroutine of the same application leaves registers behind
+        for side in (V, N):
+            side.run(codec.mk_subroutine("vanilla", [0, 10], 0, case["seed_prog"]))
+        N.ex.meas_log.clear(); V.ex.meas_log.clear()
     ov, _ = V.run(sub_v)
     if ov != "done":
         ctx.count("discarded_vanilla_" + ov)
